@@ -259,6 +259,62 @@ pub fn run_c07(out: &mut Out) {
             out.nontrivial(&format!("rp:{kind:?}:{seed}:{n}:{c}:{d}"));
         });
     }
+    // (c) wide configurations (size thresholds are where "fast paths" live): HMC batches with thousands of coordinates,
+    //     many chains, seeded initialisers for tens of thousands of coordinates — same seed, same bits, any pool size
+    for r in 0..out.n(4, 24) {
+        let id = out.fresh_id("wide");
+        let seed = seeds_of_interest(&mut rng);
+        let (n_chains, dim) = *rng.pick(&[(512usize, 8usize), (2048, 2), (40, 128), (4100, 2), (64, 64)]);
+        if !out.selected(&id) {
+            continue;
+        }
+        guard_case(out, &id.clone(), "C07:panic:wide", (n_chains * dim) as u64, |out| {
+            let run_hmc = || -> Vec<u32> {
+                let init32 = init_with_seed::<f32>(n_chains, dim, 7);
+                let mut s = HMC::<f32, B32, _>::new(mini_mcmc::distributions::RosenbrockND {}, init32, 0.001, 2).set_seed(seed);
+                let t = s.run(2, 0);
+                let v: Vec<f32> = t.to_data().to_vec().unwrap();
+                v.iter().map(|x| x.to_bits()).collect()
+            };
+            let reference = run_hmc();
+            out.count("predicate_evaluations");
+            if run_hmc() != reference {
+                out.fail(&id, "C07:not-reproducible:wide-hmc", "two HMC samplers with a wide batch built from the same inputs and seed gave different output", (n_chains * dim) as u64,
+                    format!("chains={n_chains} dim={dim} seed={seed}"));
+            }
+            let pool = rayon::ThreadPoolBuilder::new().num_threads(if r % 2 == 0 { 1 } else { 5 }).build().unwrap();
+            if pool.install(run_hmc) != reference {
+                out.fail(&id, "C07:thread-count:wide-hmc", "wide-batch HMC output depends on the number of worker threads", (n_chains * dim) as u64, format!("chains={n_chains} dim={dim} seed={seed}"));
+            }
+            // seeded initialisers, large requests
+            let (n, d) = *[(64usize, 1024usize), (4096, 8), (300, 300), (1, 40000)].get(r as usize % 4).unwrap();
+            let a64 = init_with_seed::<f64>(n, d, seed);
+            let a32 = init_with_seed::<f32>(n, d, seed);
+            out.count("predicate_evaluations");
+            for threads in [1usize, 4, 16] {
+                let pool = rayon::ThreadPoolBuilder::new().num_threads(threads).build().unwrap();
+                let (b64, b32) = pool.install(|| (init_with_seed::<f64>(n, d, seed), init_with_seed::<f32>(n, d, seed)));
+                if b64 != a64 || b32 != a32 {
+                    out.fail(&id, "C07:init-impure:large", "init_with_seed of a large request is not a pure function of its arguments (depends on the thread pool / call)", (n * d) as u64,
+                        format!("n={n} d={d} seed={seed} threads={threads}"));
+                    break;
+                }
+            }
+            // the first rows of the large request are the small request
+            let small = init_with_seed::<f64>(2, d, seed);
+            if a64.len() >= 2 && small[..] != a64[..2] {
+                out.fail(&id, "C07:init-prefix:large", "the first rows of a large seeded request differ from a small request with the same seed", (n * d) as u64, format!("n={n} d={d} seed={seed}"));
+            }
+            let mut rows: Vec<Vec<u64>> = a64.iter().map(|r| r.iter().map(|x| x.to_bits()).collect()).collect();
+            rows.sort();
+            rows.dedup();
+            if d >= 1 && rows.len() != a64.len() {
+                out.fail(&id, "C07:init-rows-repeat", "a large seeded request contains repeated rows", (n * d) as u64, format!("n={n} d={d} seed={seed}: {} distinct of {}", rows.len(), a64.len()));
+            }
+            out.count("wide_configurations");
+            out.nontrivial(&format!("wide:{n_chains}:{dim}:{n}:{d}:{seed}"));
+        });
+    }
 }
 
 // ------------------------------------------------------------------ C08
@@ -279,8 +335,9 @@ pub fn run_c08(out: &mut Out) {
     for r in 0..out.n(40, 600) {
         let id = out.fresh_id("st");
         let n = if r % 5 == 0 { 64 } else { rng.range(2, 64) as usize };
-        let seeded = rng.coin(0.6);
-        let seed = seeds_of_interest(&mut rng);
+        let seeded = rng.coin(0.6) || r % 3 == 0;
+        // every third case: a seed so close to u64::MAX that `seed + chain index (+1)` passes the top of the range
+        let seed = if r % 3 == 0 { u64::MAX - rng.below(4) } else { seeds_of_interest(&mut rng) };
         let kind = KINDS[(r as usize) % KINDS.len()];
         if kind == Kind::Gibbs || !out.selected(&id) {
             continue;
